@@ -62,6 +62,13 @@ def run(ctx):
                 r = B2.Rec2(b); r.call(H.content(rnd, n, 0), p); t2.append(r.trace(dict(kind='params', i=i, n=n))); ctx.mark(('b2', b, 'par', i, n))
         for m in core.zero_edge_inputs(lambda x: (blake.Blake2(512 if b else 256))(x), lambda i: b'z2-%d-%d' % (ctx.seed, i), want=2, tries=900):
             r = B2.Rec2(b); r.call(m, B2.par(b)); t2.append(r.trace(dict(kind='zero-edge digest')))
+        # byte counters that need the second word (t0 -> t1) or more than 53 bits: preset, then pieces
+        cw = 64 if b else 32
+        for T0 in ((1 << cw) - Bb, (1 << cw) - 2 * Bb, 1 << cw, (1 << 53) + 3 * Bb if b else (1 << 24) + 3 * Bb, (1 << (2 * cw)) - 2 * Bb):
+            for n in ((5, Bb, Bb + 5, 2 * Bb + 44) if big else (5, Bb + 5)):
+                r = B2.Rec2(b); r.init(B2.par(b)); r.preset(T0); r.update(H.content(rnd, n, 0), padding=True); t2.append(r.trace(dict(kind='preset', T0=str(T0), n=n)))
+            r = B2.Rec2(b); r.init(B2.par(b)); r.preset(T0); r.update(H.content(rnd, Bb, 0)); r.update(H.content(rnd, 7, 0), padding=True); t2.append(r.trace(dict(kind='preset+cont', T0=str(T0))))
+            ctx.mark(('b2', b, 'preset', T0))
         for o in (0, mx + 1):                                   # digest length out of range: must be rejected
             r = B2.Rec2(b); r.call(b'abc', B2.par(b, outlen=o), explicit_outlen=True); t2.append(r.trace(dict(kind='bad-outlen', o=o)))
     ctx.sample(dict(b=t2[5]['b'], scen=t2[5]['scen'], events=t2[5]['ev']))
